@@ -359,10 +359,13 @@ def gen_ec(r, tier, f, focus):
       if r.random() < 0.3:
         add_check()
         ops.append({"op": "restart"})
-      ops.append({"op": "seam_fault", "kind": "alloc_fail",
-                  "method": r.choice(["PointSequence", "PointSequence",
-                                      "Multiply", "BatchAddX"]),
-                  "k": r.randint(0, 1)})
+      if r.random() < 0.5:
+        ops.append(G.call_fail_op(r, "ec"))
+      else:
+        ops.append({"op": "seam_fault", "kind": "alloc_fail",
+                    "method": r.choice(["PointSequence", "PointSequence",
+                                        "Multiply", "BatchAddX"]),
+                    "k": r.randint(0, 1)})
       ops.append({"op": "check", "check": spec, "batch": batch,
                   "oracle": []})
       ops.append({"op": "heal"})
@@ -923,7 +926,21 @@ def gen_ecdsa(r, tier, f, focus):
       ops.append(together_pending)
       together_pending = None
       continue
-    if fault_left and u < 0.10 and budget > 14:
+    if fault_left and u < 0.12:
+      fault_left = 0
+      # allocation failure at an arbitrary function entry during a cheap
+      # nonce check; heal; the same check again
+      nm = r.choice(["CheckNonceMSB", "CheckNonceCommonPrefix",
+                     "CheckCr50U2f", "CheckNonceGeneralized"])
+      spec = {"name": nm, "how": "registry", "via": "all"}
+      batch = _sig_batch(r, pool, groups, whole_only=True)
+      ops.append(G.call_fail_op(r, "ecdsa"))
+      ops.append({"op": "check", "check": spec, "batch": batch, "oracle": []})
+      ops.append({"op": "heal"})
+      ops.append({"op": "check", "check": spec, "batch": batch,
+                  "oracle": [{"relation": "same", "order": list(batch)}]})
+      continue
+    if fault_left and u < 0.20 and budget > 14:
       fault_left = 0
       budget -= 14
       spec = {"name": "CheckIssuerKey", "how": "registry", "via": "all"}
@@ -1101,6 +1118,27 @@ def directed_plans(prop, profile):
                            "how": "registry", "via": "all"},
                  "batch": [0, 1], "oracle": []}],
         "timeout": 300.0}))
+  if profile in ("ec", "ecdsa") and prop in ("C16",):
+    # F11 on the EC / ECDSA registries: a constructor fails during the first fill
+    c = A.curve_by_name("secp224r1")
+    if profile == "ec":
+      pool = [A.ec_healthy(r, c)]
+      mods, k = ["paranoid_crypto.lib.ec_aggregate_checks"], 0
+    else:
+      pool = A.Issuer(r, c, "I0").healthy(r, 1)
+      mods, k = ["paranoid_crypto.lib.ecdsa_sig_checks"], 4
+    out.append(("directed-registry-fault-" + profile, {
+        "engine": "A", "kind": profile, "profile": profile, "focus": prop,
+        "knobs": {"clock_seed": 8, "max_diff": 256, "denylist": {}},
+        "pool": pool, "initial_annotations": {},
+        "ops": [{"op": "seam_fault", "kind": "call_fail", "k": k,
+                 "modules": mods},
+                {"op": "check_all", "batch": [0], "log_level": 0,
+                 "oracle": []},
+                {"op": "heal"},
+                {"op": "check_all", "batch": [0], "log_level": 0,
+                 "oracle": []}],
+        "timeout": 600.0}))
   if profile == "ec" and prop in ("C10",):
     # top-shift forms on a curve whose order length is not a multiple of 8
     c = A.curve_by_name("secp521r1")
